@@ -264,7 +264,7 @@ class SymCtx:
             return
         self._path_nontrivial = True
         full = list(eng.axioms) + list(eng.pc)
-        lin = [l for l in full if is_linear(l)]
+        lin = eng.linear_part()
         attempts = []
         goals = []
         if eq_terms is not None and (has_symbolic_division(g) or has_symbolic_division(eq_terms[0] - eq_terms[1])):
